@@ -192,8 +192,8 @@ theorem storeStep_flagInv (env : Nat → Content) (b : BlockData) (s : Shred) (h
 /-- **`add_shred` keeps the flags of the stored shreds consistent with the last-slice marker**, for every
     shred whatsoever (a shred is only stored after the last-slice bookkeeping accepted its flag). -/
 theorem addShred_flagInv (env : Nat → Content) (b : BlockData) (s : Shred) (h : BInv b) (hf : FlagInv b) :
-    FlagInv (addShred env b s).1 := by
-  unfold addShred
+    FlagInv (addShredCore env b s).1 := by
+  unfold addShredCore
   cases hc : cacheStep b s with
   | none => exact hf
   | some b1 =>
